@@ -98,6 +98,7 @@ PROFILES = {
     },
     "c05": {
         "tasks": {"tracking": 1},
+        "clean_p": 0.3,
         "force": ["id_new", "id_swap"],
         "fault_pool": ["miss", "ghost", "label_flip", "pose_noise", "id_new", "id_swap", "id_dup", "drop", "reorder",
                        "scene_query", "dup_detection"],
@@ -117,6 +118,7 @@ PROFILES = {
     },
     "c07": {
         "tasks": {"detection": 1, "tracking": 1},
+        "fault_pool": [k for k in FAULT_KINDS if k != "wrong_frame_id"],
         "enable_p": 0.3,
         "interp_p": 0.0,
         "twins": ["frame"],
@@ -382,7 +384,7 @@ def _make_config(rng, prof, world):
     present = [MERGE.get(a["label"], a["label"]) if merge else a["label"] for a in world["actors"]]
     present = [p for p in present if p in pool]
     if present and rng.random() < 0.8:
-        top = max(set(present), key=present.count)
+        top = max(sorted(set(present)), key=present.count)
         if top not in labels:
             labels[0] = top
     n = len(labels)
@@ -672,10 +674,6 @@ def make_plan(seed, run, profile_name):
             note("conf_tie")
         if rng.random() < 0.3:
             rng.shuffle(objs)
-        # make confidences distinct inside the message unless a tie was injected
-        if not any("conf_tie" == k for k in []):
-            pass
-
         # clock reading for this message
         stamp = t_true + offset + int(drift * (t_true - samples[0]["t"])) + jump
         if fire("jitter"):
